@@ -43,6 +43,14 @@ var c05Templates = []c05Template{
 		[]string{"UPDATE t2 SET note = 'fixed' WHERE id = %%%%VALUE%%%%"}}, // (%%WHERE%% in UPDATE/DELETE patterns is observed not to match; not asserted)
 	{"del_t2", "delete", []string{"t2"}, "DELETE FROM t2 WHERE id = %d",
 		[]string{"DELETE FROM t2 WHERE id = %%%%VALUE%%%%"}},
+	{"upd_t1", "update", []string{"t1"}, "UPDATE t1 SET plain = 'fixed' WHERE id = %d",
+		[]string{"UPDATE t1 SET plain = 'fixed' WHERE id = %%%%VALUE%%%%"}},
+	{"del_t1", "delete", []string{"t1"}, "DELETE FROM t1 WHERE id = %d",
+		[]string{"DELETE FROM t1 WHERE id = %%%%VALUE%%%%"}},
+	{"ins_t1", "insert", []string{"t1"}, "INSERT INTO t1 (id, plain) VALUES (%d, 'fixed')",
+		[]string{"INSERT INTO t1 (id, plain) VALUES (%%%%VALUE%%%%, 'fixed')"}},
+	// several statements in one simple Query message: not one parsable statement
+	{"multi", "garbage", nil, "SELECT id, note FROM t2 WHERE id = %d; SELECT id, c1 FROM t1 WHERE id = 1", nil},
 	{"garbage", "garbage", nil, "SELEC id FRM t2 WHERE id = %d", nil},
 }
 
@@ -195,7 +203,10 @@ func c05Chain(r *kernel.RNG, stmts []c05Stmt) []c05Handler {
 					h.Tables = []string{"t1", "t2"}
 				}
 			case 2:
-				t := c05Templates[r.Intn(len(c05Templates)-1)]
+				t := c05Templates[r.Intn(len(c05Templates))]
+				for t.kind == "garbage" {
+					t = c05Templates[r.Intn(len(c05Templates))]
+				}
 				h.Patterns = []c05Pat{{Text: strings.ReplaceAll(t.patterns[r.Intn(len(t.patterns))], "%%%%", "%%"), Template: t.name}}
 			default:
 				k := r.Pick("select", "insert", "update", "delete")
@@ -216,6 +227,9 @@ func c05Variant(text string, v int) string {
 	case 2:
 		return strings.ReplaceAll(text, " ", "  ")
 	case 3:
+		if strings.Contains(text, ";") {
+			return text
+		}
 		return text + ";"
 	case 4:
 		return "/* lead */ " + text
